@@ -406,6 +406,63 @@ impl Calendar {
         self.arithmetic_year(self.0.year(&calendar_date).extended_year)
     }
 
+    /// Whether the ordinal month of a month code depends on the year.
+    pub(crate) fn has_leap_months(&self) -> bool {
+        matches!(
+            self.0 .0.kind(),
+            AnyCalendarKind::Chinese | AnyCalendarKind::Dangi | AnyCalendarKind::Hebrew
+        )
+    }
+
+    /// The ordinal month of `month_code` in the given year, `None` when the year has no such month.
+    pub(crate) fn ordinal_month_of_month_code(
+        &self,
+        era_year: &types::EraYear,
+        month_code: &MonthCode,
+    ) -> TemporalResult<Option<u8>> {
+        check_calendar_year(era_year.year)?;
+        let first_of_month = self.0.date_from_codes(
+            Some(IcuEra(era_year.era.0)),
+            era_year.year,
+            IcuMonthCode(month_code.0),
+            1,
+        );
+        Ok(first_of_month
+            .ok()
+            .map(|date| self.0.month(&date).ordinal))
+    }
+
+    /// The month code of the `month`-th month of the given year, `None` when the year is shorter.
+    pub(crate) fn month_code_of_ordinal_month(
+        &self,
+        era_year: &types::EraYear,
+        month: u8,
+    ) -> TemporalResult<Option<MonthCode>> {
+        if !(1..=13).contains(&month) {
+            return Ok(None);
+        }
+        // The month is `M{month}` before the leap month of the year, `M{month - 1}L` when it
+        // is the leap month and `M{month - 1}` after it.
+        let mut candidates = [None, None, None];
+        candidates[0] = types::month_to_month_code(month).ok();
+        if month > 1 {
+            let previous = types::month_to_month_code(month - 1)?;
+            let bytes = previous.0.all_bytes();
+            candidates[1] = TinyAsciiStr::<4>::try_from_raw([bytes[0], bytes[1], bytes[2], b'L'])
+                .ok()
+                .map(MonthCode);
+            candidates[2] = Some(previous);
+        }
+        for candidate in candidates.into_iter().flatten() {
+            if candidate.validate(self).is_ok()
+                && self.ordinal_month_of_month_code(era_year, &candidate)? == Some(month)
+            {
+                return Ok(Some(candidate));
+            }
+        }
+        Ok(None)
+    }
+
     /// A `year` given next to `era` and `eraYear` has to name the same year.
     fn check_arithmetic_year(
         &self,
@@ -440,7 +497,7 @@ impl Calendar {
             return iso_date.month;
         }
         let calendar_date = self.0.date_from_iso(iso_date.to_icu4x());
-        self.0.month(&calendar_date).month_number()
+        self.0.month(&calendar_date).ordinal
     }
 
     /// `CalendarMonthCode`
